@@ -5,9 +5,9 @@ CONSTANTS
   MaxAdds = 2
   Kinds = {"text", "image", "pdf"}
   Sels1 = {1, 2, 3, 4, 5, 6, 7}
-  Sels2 = {1, 2, 3, 4, 6}
-  SelsR = {1, 2, 4, 5}
-  FreeDesc = FALSE
+  Sels2 = {1, 2, 3, 4}
+  SelsR = {1, 2, 4}
+  FreeDesc = TRUE
   FreeKind2 = TRUE
   Emit = TRUE
 INVARIANTS WInRange CleanEnd LastRemoveSound EmitCase
